@@ -18,9 +18,9 @@ def jobs(tier, seed):
     # alignment sweep on a tiny file: the re-saved parameter section goes through every residue modulo 512 while the
     # first data bytes stay free (a reader that runs past a missing terminator meets any byte value)
     for L in range(0, 256):
-        for extra in ((0,) if tier == 'quick' else (0, 1)):
+        for second in (0, 255):
             out.append({'entry': 'h_load', 'harness': 'h_load.cpp', 'name': 'align', 'cfg': {'gens': 2, 'dump': 1, 'obsfiles': 0}, 'shape': {'P': 1, 'C': 0, 'sub': 0, 'F': 1}, 'lay': {},
-                        'opts': {'analog': 'empty', 'symbolic_meta': False, 'extras': [{'name': 'PADA', 'type': 2, 'dims': [1], 'desc_len': L}, {'name': 'PADB', 'type': 2, 'dims': [1], 'desc_len': 255 if (L % 2 or extra) else 0}]}})
+                        'opts': {'analog': 'empty', 'symbolic_meta': False, 'extras': [{'name': 'PADA', 'type': 2, 'dims': [1], 'desc_len': L}, {'name': 'PADB', 'type': 2, 'dims': [1], 'desc_len': second}]}})
     return out
 
 SKIP = ('hdr.dataStart', 'prm.datastart')     # where the data start is layout, not content
